@@ -27,7 +27,10 @@ RULE = ('every abstract table of 0..N rows (row = kind k|f x container position 
         'scope elements a, b - or of a parent p and its child n - and reused by the other with ref=; template keyrefR '
         'reuses the keyref too), xdn (XSD 1.1 only: root shape under targetNamespace urn:t, unprefixed element names '
         'in selector / field XPaths resolved by xpathDefaultNamespace: 7 schema-level settings x 6 selector/field '
-        'overrides x 3 prefix styles + the all-prefixed baseline, as part of the layout dimension)} x arity {1, 2 fields}; '
+        'overrides x 3 prefix styles + the all-prefixed baseline, as part of the layout dimension), qnf (root shape, one xs:QName '
+        'field on a child element that carries its own xmlns declarations), xty (two m elements that get their rows '
+        'only through xsi:type of an extension; constraint on the root with selector m/k or .//k, or on m with '
+        'selector k)} x arity {1, 2 fields}; '
         'each table is expanded to every variant: version {1.0, 1.1} x value alphabet (string, token, integer, '
         'decimal, boolean, QName with 1-3 lexical sets each; every A cell as v1 and as v1\') x field layout '
         '(@a, c, c/d absent-c, c/d empty-c | @a,@b ; @a,c) x row order (all orders when R^n <= 4096, else the '
@@ -66,15 +69,20 @@ ALPHAS = {
     'QName/c':   ('QName',   ['p:x', ('s:x', {'s': 'urn:a'}), ('p:x', {'p': 'urn:b'})]),
     'string/e':  ('string',  ['', ' ', 'x']),            # the empty string is a value; ' ' is another one
     'token/e':   ('token',   ['', '  ', 'x']),           # '  ' collapses to the empty string
+    # scope 'qnf': xmlns declarations on the FIELD child element itself (third item 'field'); root binds p, q -> urn:a
+    'QName/f1':  ('QName',   ['p:x', ('z:x', {'z': 'urn:a'}, 'field'), ('p:x', {'p': 'urn:b'}, 'field')]),
+    'QName/f2':  ('QName',   [('q:x', {'q': 'urn:b'}), ('q:x', {'q': 'urn:b'}, 'field'), 'q:x']),
 }
-ROOT11 = [a for a in ALPHAS if not a.endswith('/e')]     # the eleven alphabets of the root scope (keys depend on it)
+QNF2 = ['QName/f1', 'QName/f2']
+ROOT11 = [a for a in ALPHAS if not a.endswith('/e') and a not in QNF2]     # the eleven alphabets of the root scope (keys depend on it)
 EMPTY2 = ['string/e', 'token/e']                         # scope 'roote': the root shape with empty-string values
 BASE5 = ['string', 'integer/a', 'decimal/a', 'boolean/a', 'QName/a']
 REF1 = ['integer/a']                                     # XSD 1.1 constraint reuse by ref (the type plays no part)
 LAYOUTS = {'@a': ['@a'], 'c': ['c'], 'c/d': ['c/d'], 'c/d~': ['c/d'], '@a,@b': ['@a', '@b'], '@a,c': ['@a', 'c']}
 ARITY = {1: ['@a', 'c', 'c/d', 'c/d~'], 2: ['@a,@b', '@a,c']}
 TEMPLATES = ('unique', 'key', 'keyref', 'keyrefR')
-SCOPES = ('root', 'roote', 'wrap', 'mid', 'nest', 'up', 'up0', 'ref-ab', 'ref-ba', 'ref-pc', 'ref-cp', 'xdn')
+SCOPES = ('root', 'roote', 'wrap', 'mid', 'nest', 'up', 'up0', 'ref-ab', 'ref-ba', 'ref-pc', 'ref-cp', 'xdn',
+          'qnf', 'xty')
 # XSD 1.1 only: a constraint declared on one scope element and reused by the other with <xs:key ref="K"/>:
 # siblings a, b (declared on a / on b) and parent p with child n (declared on p / on n).  Template 'keyref' has the
 # keyref only where the key is declared, 'keyrefR' reuses the keyref as well (<xs:keyref ref="R"/>).
@@ -104,7 +112,19 @@ def xdn_configs(layout):
     return out
 
 
+# Scope 'qnf': root shape, one field that is a child element <c> of type xs:QName carrying its own xmlns declarations.
+# Scope 'xty': two <m> elements declared with an empty base type; the instances use xsi:type="Ext", the extension
+# that adds the rows <k a=..>.  The constraint is on the root with selector m/k ('xty-child'), on the root with
+# selector .//k ('xty-desc'), or on m itself with selector k ('xty-item').
+XTY_ALPHAS = ['integer/a', 'string']
+XTY_CONFIGS = ['xty-child', 'xty-desc', 'xty-item']
+
+
 def layouts_of(scope, nf):
+    if scope == 'qnf':
+        return ['c']
+    if scope == 'xty':
+        return ['@a|%s' % cfg for cfg in XTY_CONFIGS]
     if scope != 'xdn':
         return ARITY[nf]
     return ['%s|%s' % (layout, cfg) for layout in XDN_LAYOUTS[nf] for cfg in xdn_configs(layout)]
@@ -132,6 +152,10 @@ def alphas_of(scope, nf, n):
     base ones in the other scope shapes.  Depends on the table only, never on the tier."""
     if scope == 'roote':
         return EMPTY2
+    if scope == 'qnf':
+        return QNF2
+    if scope == 'xty':
+        return XTY_ALPHAS
     if scope in REF_SCOPES or scope == 'xdn':
         return REF1
     return ROOT11 if scope == 'root' and not (nf == 2 and n >= 4) else BASE5
@@ -144,8 +168,10 @@ def versions_of(scope):
 def row_bound(tier, scope, nf):
     """(complete bound, next bound explored by residue slice or None)."""
     base = 3 if (scope == 'root' or nf == 1) else 2
-    if scope == 'xdn':
+    if scope in ('xdn', 'qnf'):
         return 2, None
+    if scope == 'xty':
+        return 3, None
     if scope in ('nest', 'wrap', 'roote'):
         return base, None                   # same bound in both tiers: the next bound of these shapes is the most
                                             # expensive part of the space and repeats the behaviours of this one
@@ -160,7 +186,7 @@ def row_alphabet(template, scope, nf):
     if scope in ('up', 'up0'):
         places = [('k', 0), ('k', 1), ('f', 2)]
     else:
-        npos = {'root': 1, 'roote': 1, 'xdn': 1, 'wrap': 2, 'mid': 2, 'nest': 3}.get(scope, 2)
+        npos = {'root': 1, 'roote': 1, 'xdn': 1, 'qnf': 1, 'wrap': 2, 'mid': 2, 'nest': 3}.get(scope, 2)
         kinds = ('k', 'f') if template in ('keyref', 'keyrefR') else ('k',)
         places = [(k, p) for k in kinds for p in range(npos)]
     return [(k, p, c) for (k, p) in places for c in cells]
@@ -188,7 +214,9 @@ def groups():
                 continue
             if template == 'keyrefR' and scope not in REF_SCOPES:
                 continue
-            for nf in (1, 2):
+            if scope == 'xty' and template == 'keyref':
+                continue
+            for nf in ((1,) if scope in ('qnf', 'xty') else (1, 2)):
                 yield template, scope, nf
 
 
@@ -216,24 +244,29 @@ def n_variants(template, scope, nf, table):
 
 def cell_value(alpha, cell):
     v = ALPHAS[alpha][1][cell - 1]
-    return v if isinstance(v, tuple) else (v, None)
+    if not isinstance(v, tuple):
+        return v, None, 'row'
+    return v if len(v) == 3 else (v[0], v[1], 'row')
 
 
 def make_row(kind, cells, alpha):
     """Abstract reference row and the pieces needed to render it."""
-    extra = {}
+    extra, on_field = {}, {}
     lex = []
     for c in cells:
         if c == 0:
             lex.append(None)
         else:
-            s, ns = cell_value(alpha, c)
+            s, ns, where = cell_value(alpha, c)
             lex.append(s)
-            if ns:
+            if ns and where == 'field':
+                on_field.update(ns)                     # declared on the field element (single-field layouts only)
+            elif ns:
                 extra.update(ns)
     nsmap = dict(ROOT_NS)
     nsmap.update(extra)
-    return ('row', kind, tuple(lex), nsmap, extra)
+    nsmap.update(on_field)                              # the in-scope namespaces of the field element
+    return ('row', kind, tuple(lex), nsmap, extra, on_field)
 
 
 def build_tree(scope, table, alpha, rev):
@@ -242,7 +275,7 @@ def build_tree(scope, table, alpha, rev):
     at = {}
     for kind, pos, cells in seq:
         at.setdefault(pos, []).append(make_row(kind, cells, alpha))
-    if scope in ('root', 'roote', 'xdn'):
+    if scope in ('root', 'roote', 'xdn', 'qnf'):
         return ('r', at.get(0, []))
     if scope in ('ref-ab', 'ref-ba'):
         return ('r', [('elem', ('a', at.get(0, []))), ('elem', ('b', at.get(1, [])))])
@@ -251,7 +284,7 @@ def build_tree(scope, table, alpha, rev):
         return ('r', [('elem', ('p', outer[:1] + [('elem', ('n', at.get(1, [])))] + outer[1:]))])
     if scope == 'wrap':                                             # rows inside <g> are not selected by 'k' / 'f'
         return ('r', at.get(0, []) + [('elem', ('g', at.get(1, [])))])
-    if scope == 'mid':
+    if scope in ('mid', 'xty'):
         return ('r', [('elem', ('m', at.get(0, []))), ('elem', ('m', at.get(1, [])))])
     if scope == 'nest':
         return ('r', [('elem', ('m', at.get(0, []) + [('elem', ('m', at.get(1, [])))] + at.get(2, [])))])
@@ -267,7 +300,8 @@ def ref_tree(tree):
 
 
 def render_row(item, layout):
-    _, kind, lex, _, extra = item
+    _, kind, lex, _, extra, on_field = item
+    fns = ''.join(' xmlns:%s="%s"' % kv for kv in sorted(on_field.items()))
     attrs, kids = '', ''
     for spec, s in zip(LAYOUTS[layout], lex):
         if s is None:
@@ -276,7 +310,7 @@ def render_row(item, layout):
         elif spec[0] == '@':
             attrs += ' %s="%s"' % (spec[1:], s)
         elif spec == 'c':
-            kids += '<c>%s</c>' % s
+            kids += '<c%s>%s</c>' % (fns, s)
         else:
             kids += '<c><d>%s</d></c>' % s
     xmlns = ''.join(' xmlns:%s="%s"' % kv for kv in sorted(extra.items()))
@@ -285,11 +319,16 @@ def render_row(item, layout):
 
 def render(tree, layout, top=True):
     label, items = tree
-    default = ''
-    if '|' in layout:                                               # scope xdn: every element is in urn:t
+    default, full = '', layout
+    if '|xty' in layout:                                            # scope xty: <m> gets its rows through xsi:type
+        layout = layout.split('|')[0]
+        default = ' xmlns:xsi="http://www.w3.org/2001/XMLSchema-instance"'
+    elif '|' in layout:                                             # scope xdn: every element is in urn:t
         layout, default = layout.split('|')[0], ' xmlns="%s"' % XDN_TNS
-    body = ''.join(render(i[1], layout, False) if i[0] == 'elem' else render_row(i, layout) for i in items)
+    body = ''.join(render(i[1], full, False) if i[0] == 'elem' else render_row(i, layout) for i in items)
     xmlns = default + ''.join(' xmlns:%s="%s"' % kv for kv in sorted(ROOT_NS.items())) if top else ''
+    if '|xty' in full and label == 'm':
+        xmlns = ' xsi:type="Ext"'
     return '<%s%s>%s</%s>' % (label, xmlns, body, label)
 
 
@@ -336,9 +375,27 @@ def xdn_schema_text(template, layout, ftype):
     return head + rowtype + body + '</xs:schema>'
 
 
+def xty_schema_text(template, layout, ftype):
+    cfg = layout.split('|')[1]
+    tag = 'unique' if template == 'unique' else 'key'
+    sel = {'xty-child': 'm/k', 'xty-desc': './/k', 'xty-item': 'k'}[cfg]
+    cons = '<xs:%s name="K"><xs:selector xpath="%s"/><xs:field xpath="@a"/></xs:%s>' % (tag, sel, tag)
+    return XS % (
+        '<xs:complexType name="Row"><xs:attribute name="a" type="xs:%s"/></xs:complexType>\n'
+        '<xs:complexType name="Base"/>\n'
+        '<xs:complexType name="Ext"><xs:complexContent><xs:extension base="Base"><xs:choice minOccurs="0" '
+        'maxOccurs="unbounded"><xs:element name="k" type="Row"/></xs:choice></xs:extension></xs:complexContent>'
+        '</xs:complexType>\n'
+        '<xs:element name="r"><xs:complexType><xs:choice minOccurs="0" maxOccurs="unbounded"><xs:element name="m" '
+        'type="Base">%s</xs:element></xs:choice></xs:complexType>%s</xs:element>\n'
+        % (ftype, cons if cfg == 'xty-item' else '', cons if cfg != 'xty-item' else ''))
+
+
 def schema_text(template, layout, ftype, scope):
     if scope == 'xdn':
         return xdn_schema_text(template, layout, ftype)
+    if scope == 'xty':
+        return xty_schema_text(template, layout, ftype)
     t = 'xs:' + ftype
     specs = LAYOUTS[layout]
     child = ''
@@ -391,11 +448,24 @@ def schema_text(template, layout, ftype, scope):
 
 
 def get_schema(version, template, layout, ftype, scope):
-    scope = {'up0': 'up', 'roote': 'root'}.get(scope, scope)
+    scope = {'up0': 'up', 'roote': 'root', 'qnf': 'root'}.get(scope, scope)
     k = (version, template, layout, ftype, scope)
     if k not in _schemas:
         _schemas[k] = VERSIONS[version](schema_text(template, layout, ftype, scope))
     return _schemas[k]
+
+
+def reference_view(template, scope, ftype, layout, tree):
+    """(what the constraint's XPaths select according to the reference, declaration)."""
+    rtree = ref_tree(tree)
+    if scope == 'xdn':
+        rtree = ref.restrict(rtree, *xdn_resolution(layout))
+    if scope == 'xty':
+        kind = 'unique' if template == 'unique' else 'key'
+        if layout.endswith('xty-item'):
+            return rtree, ref.Decl(kind, ftype, 'm', None)
+        return ref.hoist(rtree), ref.Decl(kind, ftype, 'r', None)   # m/k and .//k from the root: every row
+    return rtree, decl_of(template, scope, ftype)
 
 
 def decl_of(template, scope, ftype):
@@ -404,13 +474,13 @@ def decl_of(template, scope, ftype):
         declared_on, reused_on = REF_SCOPES[scope]
         ref_on = {'keyref': (declared_on,), 'keyrefR': (declared_on, reused_on)}.get(template)
         return ref.Decl(kind, ftype, (declared_on, reused_on), ref_on)
-    if scope in ('root', 'roote', 'wrap', 'xdn'):
+    if scope in ('root', 'roote', 'wrap', 'xdn', 'qnf'):
         key_on = 'r'
     else:
         key_on = 'm'
     ref_on = None
     if template == 'keyref':
-        ref_on = 'r' if scope in ('root', 'roote', 'wrap', 'xdn', 'up', 'up0') else 'm'
+        ref_on = 'r' if scope in ('root', 'roote', 'wrap', 'xdn', 'qnf', 'up', 'up0') else 'm'
     return ref.Decl(kind, ftype, key_on, ref_on)
 
 
@@ -457,13 +527,10 @@ def run_table(template, scope, nf, table, acc=None):
     for v in variants(template, scope, nf, table):
         version, alpha, layout, ctab, rev = v
         ftype = ALPHAS[alpha][0]
-        resolution = xdn_resolution(layout) if scope == 'xdn' else None
+        resolution = xdn_resolution(layout) if scope == 'xdn' else (layout if scope == 'xty' else None)
         if last is None or last[0] != (alpha, ctab, rev, resolution):
             tree = build_tree(scope, ctab, alpha, rev)
-            rtree = ref_tree(tree)
-            if resolution is not None:                               # what the XPaths select, by the reference
-                rtree = ref.restrict(rtree, *resolution)
-            res = ref.judge(rtree, decl_of(template, scope, ftype))
+            res = ref.judge(*reference_view(template, scope, ftype, layout, tree))
             last = ((alpha, ctab, rev, resolution), tree, res)
         _, tree, res = last
         xml = render(tree, layout)
@@ -511,10 +578,7 @@ def sample_of(template, scope, nf, table):
     v = next(variants(template, scope, nf, table))
     version, alpha, layout, ctab, rev = v
     tree = build_tree(scope, ctab, alpha, rev)
-    rtree = ref_tree(tree)
-    if scope == 'xdn':
-        rtree = ref.restrict(rtree, *xdn_resolution(layout))
-    res = ref.judge(rtree, decl_of(template, scope, ALPHAS[alpha][0]))
+    res = ref.judge(*reference_view(template, scope, ALPHAS[alpha][0], layout, tree))
     return {'template': template, 'scope': scope, 'fields': nf, 'table': show_table(table),
             'variants': n_variants(template, scope, nf, table), 'first_variant': vname(v),
             'document': render(tree, layout), 'reference': '+'.join(res.conditions()) or 'valid'}
